@@ -786,3 +786,70 @@ func vSortedUnique(ss []string) []string {
 func c04SyntaxReCopy() *regexp.Regexp {
 	return regexp.MustCompile(`^(got unexpected |unexpected EOF while lexing|unexpected token |unexpected end of input while parsing|parser did not reach end of input|parsing invalid (integer|float) literal|scan error while lexing)`)
 }
+
+// vVariation is a seed in which one scalar was replaced by a value of another type / form; the
+// scalars of Container (the other elements of that sequence / values of that mapping) are the
+// positions to examine.
+type vVariation struct {
+	Cat       *vCatalogue
+	Container string
+}
+
+// vContainerOf returns the path of the sequence / mapping that directly holds the scalar at path.
+func vContainerOf(path string) string {
+	if strings.HasSuffix(path, "]") {
+		return path[:strings.LastIndex(path, "[")]
+	}
+	if i := strings.LastIndex(path, "."); i >= 0 {
+		return path[:i]
+	}
+	return ""
+}
+
+// vDirectChild reports whether the scalar at path lies directly in container.
+func vDirectChild(container, path string) bool {
+	if !strings.HasPrefix(path, container) {
+		return false
+	}
+	rest := strings.TrimPrefix(path, container)
+	return strings.Count(rest, ".")+strings.Count(rest, "[") == 1
+}
+
+// vSiblingVariations produces, for every scalar position q of a maximal seed and each of a few
+// replacement values of another type (number, bool, null, empty, an expression of type any / of
+// type string), the seed with q replaced — kept when it still lints clean: whether and how a
+// value is checked must not depend on the type or form of its neighbours.
+func vSiblingVariations(cats []*vCatalogue, skipped *int) []vVariation {
+	values := []string{"1", "true", "null", "''", "'${{ fromJSON(vars.X) }}'", "'${{ github.sha }}'"}
+	var out []vVariation
+	for _, c := range cats {
+		for _, q := range c.Scalars {
+			cont := vContainerOf(q.Path)
+			sibs := 0
+			for _, o := range c.Scalars {
+				if o != q && vContainerOf(o.Path) == cont {
+					sibs++
+				}
+			}
+			if sibs == 0 || cont == "" {
+				continue
+			}
+			for vi, v := range values {
+				src := c.Replace(q, v)
+				res := vLint(src, nil)
+				if res.Panic != "" || res.Err != nil || len(res.Errs) > 0 {
+					*skipped++
+					continue
+				}
+				name := fmt.Sprintf("%s<%s=value%d>", c.Seed, q.Path, vi)
+				dc, err := vBuildCatalogue(name, src)
+				if err != nil {
+					*skipped++
+					continue
+				}
+				out = append(out, vVariation{Cat: dc, Container: cont})
+			}
+		}
+	}
+	return out
+}
